@@ -508,6 +508,23 @@ def run(ctx):
     # every item of a batch is journaled, applied and replayed
     D.loops_visit_all(ctx, "R-C03.15", only=("batch::WriteBatch::commit", "journal::writer::Writer::write_batch", "db::Database::recover", "recovery::recover_sealed_memtables", "tx::write_tx::BaseTransaction::commit"))
 
+    # ---- R-C03.19 a reader starts with nothing verified: position 0, outside a batch, no items owed. (A reader that starts
+    #      at position 1 leaves a garbage byte when the FIRST record is torn; one that starts "inside a batch" accepts
+    #      a leading End marker.)
+    for fid, fields in (("journal::reader::JournalReader::new", {"last_valid_pos": ("int", 0)}),
+                        ("journal::batch_reader::JournalBatchReader::new", {"last_valid_pos": ("int", 0), "is_in_batch": ("bool", False), "batch_counter": ("int", 0)})):
+        fn = ctx.fn(fid, "R-C03.19")
+        if not fn:
+            continue
+        got = {}
+        for x in A.walk(ctx.og(fn).of_local(0)):
+            if x.k == "agg" and x.a[0].endswith(fid.split("::")[-2]):
+                for nm, v in (x.a[1] or ()):
+                    if nm in fields:
+                        got[nm] = tuple(v.a[:2]) if v.k == "const" else A.tstr(v)[:40]
+        ok = got == fields
+        ctx.ob("R-C03.19", fn, "starts-with-nothing-verified", ok, "starts at %s" % got if ok else "a fresh reader starts with %s (want %s)" % (got, fields))
+
     # ---- borrowed obligations (mechanisms owned by other properties that this property's verdict also rests on)
     # a recovered batch is whole only if the replay guard decides per keyspace (an item is skipped only when ITS keyspace's
     # tables hold it): a guard answering for the wrong keyspace drops one keyspace's half of a batch
